@@ -77,12 +77,17 @@ def counters(model, info, art):
         b.rewind()
         await shot()
         await shot()
+        await b.reset_checkpoint_state_coro()
+        await b.configure(Msg("configure", det))        # the stream is re-described after the checkpoint
+        await shot()
+        b.rewind()
+        await shot()
         await b.close_run(Msg("close_run"))
     asyncio.run(go())
     seqs = [d["seq_num"] for n, d in out if n == "event"]
     stop = [d for n, d in out if n == "stop"][0]
-    ok = seqs == [1, 2, 2, 3] and stop["num_events"] == {"primary": 3}
-    return ("contradicted" if ok else "confirmed"), f"primary seq_nums {seqs} (documented [1, 2, 2, 3]), num_events={stop['num_events']}"
+    ok = seqs == [1, 2, 2, 3, 4, 4] and stop["num_events"] == {"primary": 4}
+    return ("contradicted" if ok else "confirmed"), f"primary seq_nums {seqs} (documented [1, 2, 2, 3, 4, 4]), num_events={stop['num_events']}"
 
 
 def bundles(model, info, art):
